@@ -296,7 +296,8 @@ func repoKeysScanner(ctx context.Context, contextStore context2.Stores, repo mod
 				Logger(zap.NewNop()), // mute verbosity on retrieving bundle details
 			)
 
-			keys, erk := bundleKeys(ctx, b, bundle.LeafSize, db, lg)
+			// a resumed build starts from the keys of the uploaded chunks: a root key may be there without its leaves
+			keys, erk := bundleKeys(ctx, b, bundle.LeafSize, db, lg, !options.resume)
 			if erk != nil {
 				return erk
 			}
@@ -514,7 +515,7 @@ func insistantBackoff() backoff.BackOff {
 	return withRetry
 }
 
-func bundleKeys(ctx context.Context, b *Bundle, size uint32, db kvStore, logger *zap.Logger) ([]string, error) {
+func bundleKeys(ctx context.Context, b *Bundle, size uint32, db kvStore, logger *zap.Logger, trustKnownRoots bool) ([]string, error) {
 	if err := backoff.Retry(func() error {
 		return unpackBundleFileList(ctx, b, false, defaultBundleEntriesPerFile)
 	},
@@ -543,7 +544,7 @@ func bundleKeys(ctx context.Context, b *Bundle, size uint32, db kvStore, logger 
 			return nil, err
 		}
 
-		if found {
+		if found && trustKnownRoots {
 			// the root key is found in store, no need to unpack it: we necessarily have all its leaves in store
 			continue
 		}
